@@ -303,5 +303,5 @@ def describe(tier):
                      'URLTableHookWrapper.check_out from the harness)',
                      'pruning key: within one visit the client state depends only on the '
                      'answers received in that visit; across visits only on the try count'],
-        time_cap_s=None if tier == 'quick' else 3000,
+        time_cap_s=None if tier == 'quick' else 2400,
     )
